@@ -7,6 +7,8 @@ import (
 	"berty.tech/go-ipfs-log/entry/sorting"
 	"berty.tech/go-ipfs-log/iface"
 	"berty.tech/go-ipfs-log/internal/vx"
+	"github.com/ipfs/go-cid"
+	mh "github.com/multiformats/go-multihash"
 )
 
 // symEntry: an entry whose clock time ranges over all 2^64 values, whose clock id is a byte
@@ -136,3 +138,68 @@ var _ = register("H_C19_hashorder", H_C19_hashorder)
 var _ = register("H_C19_lww", H_C19_lww)
 var _ = register("H_C19_clock", H_C19_clock)
 var _ = register("H_C19_sort", H_C19_sort)
+
+// H_C19_cidforms: the hash tie-break on real (non-atom) identifiers, including identifiers that share their
+// multihash and differ only in version or codec (CIDv0 / CIDv1 dag-pb / CIDv1 dag-cbor of one digest - what a
+// legacy block requested under both its names, or one digest under two codecs, produces): distinct entries
+// with tied clocks are never "equal", the order is antisymmetric and sorting is input-order independent.
+func H_C19_cidforms() {
+	digest := make([]byte, 32)
+	for i := range digest {
+		digest[i] = byte(i*7 + 1)
+	}
+	mh1, err := mh.Encode(digest, mh.SHA2_256)
+	if err != nil {
+		panic(err)
+	}
+	digest[31] ^= 0x55
+	mh2, _ := mh.Encode(digest, mh.SHA2_256)
+	forms := []cid.Cid{cid.NewCidV0(mh1), cid.NewCidV1(cid.DagProtobuf, mh1), cid.NewCidV1(cid.DagCBOR, mh1), cid.NewCidV1(cid.DagCBOR, mh2)}
+	id := vx.Bytes("id", vx.Param("IDLEN", 1))
+	t := vx.Int("time")
+	var es []iface.IPFSLogEntry
+	for i, c := range forms {
+		es = append(es, &entry.Entry{LogID: "X", Payload: []byte{'p', byte('0' + i)}, Hash: c, Clock: entry.NewLamportClock(id, t)})
+	}
+	strict := sorting.NoZeroes(sorting.SortByEntryHash)
+	for i := range es {
+		for j := range es {
+			if i == j {
+				continue
+			}
+			r, err := sorting.SortByEntryHash(es[i], es[j])
+			q, _ := sorting.SortByEntryHash(es[j], es[i])
+			vx.Assert("C19", err == nil && r != 0, "the hash tie-break never calls two distinct entries equal (identifiers sharing a multihash)")
+			vx.Assert("C19", vx.Sgn(r) == -vx.Sgn(q), "the hash tie-break is antisymmetric (identifiers sharing a multihash)")
+			_, err = strict(es[i], es[j])
+			vx.Assert("C19", err == nil, "NoZeroes(SortByEntryHash) accepts every pair of distinct entries")
+		}
+	}
+	p := perms4[vx.Choice("perm", len(perms4))]
+	in1 := []iface.IPFSLogEntry{es[0], es[1], es[2], es[3]}
+	in2 := []iface.IPFSLogEntry{es[p[0]], es[p[1]], es[p[2]], es[p[3]]}
+	sorting.Sort(sorting.SortByEntryHash, in1, false)
+	sorting.Sort(sorting.SortByEntryHash, in2, false)
+	vx.Assert("C19", sameSeq(in1, in2), "Sort is deterministic: same result for every input permutation (identifiers sharing a multihash)")
+	vx.Cover("cid-forms")
+}
+
+var perms4 = func() [][]int {
+	var out [][]int
+	var rec func(cur []int, used int)
+	rec = func(cur []int, used int) {
+		if len(cur) == 4 {
+			out = append(out, append([]int{}, cur...))
+			return
+		}
+		for i := 0; i < 4; i++ {
+			if used&(1<<i) == 0 {
+				rec(append(cur, i), used|1<<i)
+			}
+		}
+	}
+	rec(nil, 0)
+	return out
+}()
+
+var _ = register("H_C19_cidforms", H_C19_cidforms)
